@@ -514,6 +514,7 @@ def check(prop, tier, seed):
     corr_errors = []
     mismatches = []
     retried = [0]
+    retry_failed = [0]
     stream_sets = spec.streams(tier, rng)
     corpus = streams.load_corpus(prop)
     if corpus:
@@ -541,7 +542,7 @@ def check(prop, tier, seed):
             dist_k = "%s/%s" % (ss.name, c[2] or c[1])
             dist[dist_k] = dist.get(dist_k, 0) + 1
             d = compare_case(c, impl.get(c[0]), mod.get(c[0]))
-            if d and "timeout" in str(d.get("observed", "")) and ss.name not in ("pool", "tsan-pool"):
+            if d and "timeout" in str(d.get("observed", "")) and ss.name not in ("pool", "tsan-pool") and retried[0] < 4 and retry_failed[0] < 2:
                 # slow is not wrong: a case that ran out of its (load-dependent) time budget is run again
                 # alone with a 15x budget (at most 15 minutes, or twice the stream's own budget); a real hang still times out and is reported
                 i2, m2, e2 = run_cases([c], ss.cfg, os.path.join(rundir, ss.name + "_retry"), ss.extra_defs, ss.tag,
@@ -549,6 +550,10 @@ def check(prop, tier, seed):
                 if not e2:
                     d = compare_case(c, i2.get(c[0]), m2.get(c[0]))
                     retried[0] += 1
+                    # a change that makes many cases hang must not turn the check into hours of retries:
+                    # at most four cases are re-run, and none any more once two of them timed out again
+                    if d and "timeout" in str(d.get("observed", "")):
+                        retry_failed[0] += 1
             if d:
                 nbad += 1
                 mismatches.append((ss, c, d))
